@@ -172,7 +172,9 @@ ROUND5: dict[str, str] = {
     "C12": "Fourth round: a per-instance memo `if K not in self.M: self.M[K] = V` has every public, re-assignable attribute that V reads in its key (R-MEMOKEY); R-FALSYZERO.",
     "C13": "Fourth round: R-FALSYZERO (see C02).",
     "C15": "Fourth round: every field of HelicityModel that takes part in the generated __eq__ is of a type whose instances compare by value (R-FIELDEQ).",
-    "C16": "Fourth round: the taint of a helper call is the taint of what the helper returns (a helper that returns str / srepr / hash of the key returns a digest, not the key); nothing on the cache path raises inside a handler of a file-system error or under a test that observes the file system (R-NORAISE).",
+    "C16": "Fourth round: the taint of a helper call is the taint of what the helper returns (a helper that returns str / srepr / hash of the key returns a digest, not the key); nothing on the cache path raises inside a handler of a file-system error or under a test that observes the file system, and mkdir tolerates an existing directory and creates missing parents (R-NORAISE); the loaded object is unpacked only after a shape test on that path (R-SHAPE); the temporary is created next to the final file (R-SAMEDIR).",
+    "C01": "After the last mutation sweep: a key removed from the kinematic variables becomes a parameter on the same path; every mass symbol that remains in an alignment angle gets a definition on every path of its loop.",
+    "C05": "After the last mutation sweep: the single-rotation special case substitutes the dangling index by the helicity symbol (shared with C04).",
     "C17": "Fourth round: in a helper loop over the items of the source mapping, a stored value read from the source under another key than the item's own is reported (values travel with their symbols).",
     "C20": "Fourth round: threshold conjuncts of the indicator are read - a wrong mass pairing is a violation, a right one leaves the indicator undecided (crossed-channel regions are outside the sign table).",
 }
